@@ -232,7 +232,11 @@ FUNCS = {"chart": f_chart, "closure": f_closure, "solve": f_solve, "blocks": f_b
 def event(fn, args, site=None, feat=None, timeout=30):
     call = {"fn": fn, "args": args}
     try:
-        e = guarded(lambda: FUNCS[fn](args), timeout)
+        try:
+            e = guarded(lambda: FUNCS[fn](args), timeout)
+        except CallTimeout:
+            # a slow machine must not look like a hanging library: one more attempt with four times the budget
+            e = guarded(lambda: FUNCS[fn](args), 4 * timeout)
     except MachineryError:
         raise
     except CallTimeout:
